@@ -47,6 +47,9 @@ def cases(tier, seed):
     out += [{"sub": "commute", "i": i} for i in range(24 if tier == "quick" else 3000)]
     for mi, nch in ([(0, 1), (1, 2), (2, 2), (3, 6)] if tier == "quick" else [(0, 1), (1, 2), (2, 2), (3, 6), (4, 6), (5, 6), (6, 6)]):
         out += [{"sub": "pool", "mol": mi, "chunk": c, "nchunks": nch} for c in range(nch)]
+    if tier == "quick":
+        # a high-spin reference (|n_alpha - n_beta| = 2) in the quick tier as well
+        out += [{"sub": "ansatz", "mol": 4, "kind": k, "rep": r} for k in ("UCCSD", "UCCGD", "UpCCGSD1", "ADAPT") for r in range(2)]
     mols = 3 if tier == "quick" else 7
     for mi in range(mols):
         for kind in sorted(ansatzlib.PARTICLE_CONSERVING) + ["pUCCD", "UpCCGSD4"]:
